@@ -316,6 +316,8 @@ def _cut_loop(E, n, st, spec, kind, iterable=None):
         assume_instance_list(E, st, linst['head'])
 
     # 4. guard
+    if kind == 'while' and spec.get('exit_gives'):
+        _exit_gives(E, n, st, spec['exit_gives'], where)
     if kind == 'while':
         sink = []
         branches = []
@@ -368,6 +370,31 @@ def _cut_loop(E, n, st, spec, kind, iterable=None):
                 else:
                     outs.append(o)
     return outs
+
+
+def _exit_gives(E, n, st, eg, where):
+    """opt-in loop-spec key  exit_gives = {'assume': [clauses], 'clauses': [clauses]}:  an additional, self-contained check of the
+    loop GUARD: for ARBITRARY values of the loop-carried variables (the state just havocked, with every hypothesis dropped except
+    the `assume` clauses, each of which is first proved in the real state), leaving the loop -- the guard being false -- implies
+    each of `clauses`.  "On exit X holds from the guard alone."  The obligations are small, so a wrong guard yields a definite
+    counter-model instead of a time-out; they are extra obligations and take nothing away from the main proof."""
+    from .contracts import eval_clause
+    for cl in eg.get('assume', []):
+        g = eval_clause(E, cl, st)
+        E.oblige(st, g, 'loop_exit_assume', where, {'clause': cl})
+    s0 = st.fork()
+    s0.pc = []
+    s0.facts = set()
+    for cl in eg.get('assume', []):
+        s0.assume(_as_z3(eval_clause(E, cl, s0)))
+    sink = []
+    for s1, c in E.ev(n.test, s0, sink):
+        _a, b = E.split(s1, E.truth(c, s1), label='exit_gives@%d' % n.lineno)
+        if b is None:
+            continue
+        for cl in eg.get('clauses', []):
+            g = eval_clause(E, cl, b)
+            E.oblige(b.fork(), g, 'loop_exit', where, {'clause': cl})
 
 
 def _consts0(t, cache):
